@@ -753,6 +753,7 @@ var confirmedPanicFree = map[string]string{
 func ruleV13(c *Ctx) {
 	c.doc("V13", "every non-constant index s[i] into a slice or string in gosk's own code is covered: i is the index of a range loop over s itself (or over a slice shown to have the same length: rule X13's guards), or a dominating comparison bounds i by len(s); the remaining sites are listed with the reason they cannot go out of range, and a site that is none of these fails")
 	n, auto := 0, 0
+	paramArgsHook = c.boundArgs
 	x13 := x13Verdicts(c)
 	for _, f := range c.L.RepoFuncs() {
 		if c.isGeneratedFn(f) || pkgRel(f) == "test" || strings.HasSuffix(c.L.Fset.Position(f.Pos()).Filename, "_enumer.go") || strings.HasSuffix(c.L.Fset.Position(f.Pos()).Filename, "test_helper.go") {
@@ -967,9 +968,27 @@ func nonNegative(v ssa.Value, depth int) bool {
 			return true
 		}
 		return nonNegative(x.X, depth+1)
+	case *ssa.Parameter:
+		// a parameter of an unexported function every caller of which passes a non-negative value
+		if paramArgsHook != nil {
+			args := paramArgsHook(x)
+			if len(args) == 0 {
+				return false
+			}
+			for _, a := range args {
+				if !nonNegative(a, depth+1) {
+					return false
+				}
+			}
+			return true
+		}
 	}
 	return false
 }
+
+// paramArgsHook resolves a parameter to the arguments of all its call sites (set by the rules
+// that run with a Ctx: (*Ctx).boundArgs).
+var paramArgsHook func(*ssa.Parameter) []ssa.Value
 
 // testedNonNegative: a dominating `idx < 0` false edge or `idx >= 0` true edge.
 func testedNonNegative(f *ssa.Function, idx ssa.Value, blk *ssa.BasicBlock) bool {
